@@ -1,3 +1,4 @@
+import RactorModel.Extracted
 import RactorModel.Lemmas.TimersProps
 import RactorModel.Lemmas.TimersDrop
 import RactorModel.Lemmas.TimersDeliver
@@ -505,6 +506,21 @@ example : (mrun init [.hold, .adv 1000, .kill]).target.exit = some (.killed, 100
 /-- exit_after with the documented reason -/
 example : (mrun init [.create .exitAfter 7000, .adv 7000]).target.exit = some (.exitAfter 7, 7000) := by decide
 
+/-! ### E-SRC, async-std backend (round 4)
+
+The model's clock axioms are written after tokio (`sleep`, `interval` with the Burst behaviour). With
+`--features async-std` ractor's `sleep` / `interval` are the ones of `async_std_primitives.rs`; these obligations
+pin the source shape the free-running oracle run `as-free` relies on: `sleep(d)` forwards `d` unchanged to
+`async_std::task::sleep`; `interval(d)` ticks first at once (`next_tick = now`), a tick reads the clock, sleeps the
+remaining time only if the tick lies in the future and then moves the schedule by exactly `d`
+(`next_tick += dur`: fixed rate, the k-th tick at `start + k·d`, late ticks are caught up in a burst). -/
+theorem src_async_std_sleep : Extracted.asyncStdSleepBody = "async_std::task::sleep(dur).await;" := by decide
+theorem src_async_std_interval :
+    Extracted.asyncStdIntervalInit = "dur,next_tick:Instant::now(),"
+    ∧ Extracted.asyncStdIntervalTickSteps =
+        ["letnow=Instant::now()", "ifself.next_tick>now", "sleep(self.next_tick-now).await", "self.next_tick+=self.dur"]
+    ∧ Extracted.asyncStdIntervalTickStatements = 4 := by decide
+
 end C12
 
 #print axioms C12.wheel_rounds_up
@@ -538,3 +554,5 @@ end C12
 #print axioms C12.exit_after_stops
 #print axioms C12.acted_then_requested
 #print axioms C12.acted_then_gone
+#print axioms C12.src_async_std_sleep
+#print axioms C12.src_async_std_interval
